@@ -620,18 +620,23 @@ def k_divide_update(case, rng):
 def _csr(rng, n, dt, variant):
     import scipy.sparse as sp
 
-    dens = [0.0, 0.15, 0.5, 1.0][variant % 4] if n <= 64 else min(1.0, 6.0 / n)
-    mask = rng.random((n, n)) < dens
-    if variant % 5 == 1 and n > 1:
-        mask[rng.integers(n)] = False  # an empty row
-    if variant % 5 == 2:
-        mask[:, :] = np.eye(n, dtype=bool)
     if n > 64:
-        # build from coordinates, do not materialise a dense n x n array of values
-        r, c = np.nonzero(mask)
-        vals = _arr(rng, len(r), dt)
-        A = sp.csr_matrix((vals, (r, c)), shape=(n, n))
+        # ~6 entries per row at distinct positions, built from coordinates (never an n x n dense array)
+        flat = np.unique(rng.integers(0, n * n, size=6 * n))
+        r, c = flat // n, flat % n
+        if variant % 5 == 1:
+            keep = r != int(rng.integers(n))  # an empty row
+            r, c = r[keep], c[keep]
+        if variant % 5 == 2:
+            r = c = np.arange(n)  # diagonal
+        A = sp.csr_matrix((_arr(rng, len(r), dt), (r, c)), shape=(n, n))
     else:
+        dens = [0.0, 0.15, 0.5, 1.0][variant % 4]
+        mask = rng.random((n, n)) < dens
+        if variant % 5 == 1 and n > 1:
+            mask[rng.integers(n)] = False  # an empty row
+        if variant % 5 == 2:
+            mask[:, :] = np.eye(n, dtype=bool)
         A = sp.csr_matrix(_arr(rng, (n, n), dt) * mask)
     A.sort_indices()
     return A
@@ -655,10 +660,12 @@ def k_csr_matvec(case, rng):
     def ref():
         if not (np.array_equal(A.data, data0) and np.array_equal(A.indptr, ip0) and np.array_equal(A.indices, ix0)):
             raise Violation("input-modified", entry="par_dot_csr_matvec")
-        Ad = np.zeros((n, n), dtype=np.complex128)
+        # row sums of data * x[col], by numpy (independent of scipy's and quimb's matvec)
         rows = np.repeat(np.arange(n), np.diff(A.indptr))
-        np.add.at(Ad, (rows, A.indices), A.data)
-        return (Ad @ np.asarray(x, dtype=np.complex128).reshape(n)).reshape(x.shape)
+        xv = np.asarray(x, dtype=np.complex128).reshape(n)
+        y = np.zeros(n, dtype=np.complex128)
+        np.add.at(y, rows, A.data.astype(np.complex128) * xv[A.indices])
+        return y.reshape(x.shape)
 
     mag = float(np.linalg.norm(A.data)) * float(np.linalg.norm(x)) if A.nnz else float(np.linalg.norm(x))
     return K("par_dot_csr_matvec", n, n, call, ref, [x], n * odt.itemsize, (EXACT32 if _single(dta, dtx) else EXACT64) * 10,
